@@ -678,6 +678,11 @@ def confirm_point(c):
 
 
 def replay(payload):
+    if isinstance(payload.get("replay"), dict) and payload["replay"].get("training_loop"):
+        it = payload["replay"]["training_loop"]
+        r = training_loop_task((it[0], list(it[1]), list(it[2]), it[3], it[4]))
+        print(r)
+        return all(v[0] <= 1e-5 for v in r["dev"].values())
     if isinstance(payload.get("replay"), dict) and payload["replay"].get("interleaved"):
         r = interleaved_task(tuple(payload["replay"]["interleaved"]))
         print(r)
@@ -796,6 +801,93 @@ def interleaved_task(item):
     return {"dev": dev}
 
 
+def training_loop_task(item):
+    """forward / backward / in-place update of the caller's leaf tensors / forward ... on the SAME Molecule and Energy
+    objects (what every training loop does): at every step the value and the gradients must be those of freshly built
+    objects at the current parameter values, whatever the objects remember from earlier steps."""
+    import torch
+    from seqm.basics import Energy
+
+    from ..drivers import sp
+
+    method, molnames, names, sb, seed = item
+    mols = [M.apply(M.get(n), M.generic_rot(seed + k)) for k, n in enumerate(molnames)]
+    plain, _ = sp.build(mols, sp.make_params(method, eps=1e-10))
+    base = {n: plain.parameters[n].detach().clone() for n in names}
+
+    def evaluate(molecule, en, lp):
+        out = en(molecule, learned_parameters=lp, all_terms=True)
+        Hf, e_gap = out[0], out[6]
+        res = {"Hf": Hf.detach().numpy().copy()}
+        # density-dependent outputs are differentiable with the implicit / unrolled backward modes only (statement)
+        for lab, o in (("dHf", Hf.sum()), ("dgap", e_gap.sum())) if sb else (("dHf", Hf.sum()),):
+            gs = torch.autograd.grad(o, [lp[n] for n in names], retain_graph=True, allow_unused=True)
+            for n, g in zip(names, gs):
+                res[f"{lab}/d{n}"] = None if g is None else g.detach().numpy().copy()
+        return res
+
+    def fresh(values):
+        params = dict(sp.make_params(method, eps=1e-10), scf_backward=sb, learned=list(names))
+        lp = {n: values[n].detach().clone().requires_grad_(True) for n in names}
+        molecule, _ = sp.build(mols, params, learned=lp)
+        molecule.verbose = False
+        return evaluate(molecule, Energy(params), lp)
+
+    params = dict(sp.make_params(method, eps=1e-10), scf_backward=sb, learned=list(names))
+    theta = {n: base[n].clone().requires_grad_(True) for n in names}
+    molecule, _ = sp.build(mols, params, learned=theta)
+    molecule.verbose = False
+    en = Energy(params)
+    dev = {}
+    # the schedule of in-place updates: every second name, then the others, then all
+    scheds = [names[1::2] or names, names[0::2], names]
+    for step in range(len(scheds) + 1):
+        a = evaluate(molecule, en, theta)
+        b = fresh(theta)
+        for k in a:
+            if a[k] is None or b[k] is None:
+                d = float("inf") if (a[k] is None) != (b[k] is None) else 0.0
+            else:
+                d = float(np.abs(a[k] - b[k]).max() / max(1e-9, np.abs(b[k]).max()))
+            if d > dev.get(k, (0.0, 0))[0]:
+                dev[k] = (d, step)
+        if step < len(scheds):
+            with torch.no_grad():
+                for j, n in enumerate(scheds[step]):
+                    i = torch.arange(theta[n].numel(), dtype=torch.float64).reshape(theta[n].shape)
+                    theta[n].mul_(1.0 + 0.02 * torch.cos(1.3 * i + j + step))
+    return {"dev": dev}
+
+
+def training_loops(chk, tier, seed):
+    sets = {
+        "AM1": [["alpha", "Gaussian1_K", "Gaussian2_L", "Gaussian1_M"], ["U_ss", "zeta_p", "g_pp"], ["beta_s", "alpha"]],
+        "PM3": [["alpha", "Gaussian1_K", "Gaussian2_K", "Gaussian1_L"]],
+        "MNDO": [["alpha", "zeta_s", "g_ss"]],
+    }
+    items = []
+    for method, lst in sets.items():
+        for names in lst:
+            for sb in (1, 2) if tier == "quick" else (0, 1, 2):
+                items.append((method, ["H2CO", "H2O"], names, sb, seed))
+                if tier != "quick":
+                    items.append((method, ["NH3"], names, sb, seed))
+    res = pmap(training_loop_task, items, chunk=1, timeout=1800, progress="C07 training loops on the same objects")
+    for it, r in zip(items, res):
+        key = f"training_loop|{it[0]}|{'+'.join(it[1])}|{','.join(it[2])}|sb{it[3]}"
+        desc = dict(what="training_loop", method=it[0], molecule="+".join(it[1]), scf_backward=it[3], problem="mismatch", names=",".join(it[2]))
+        if is_error(r) or is_timeout(r):
+            chk.violation(dict(desc, problem="raised"), f"{key}: {str(r)[:300]}", replay={"training_loop": list(it)})
+            continue
+        worst = max((v[0] for v in r["dev"].values()), default=0.0)
+        chk.case(key, nontrivial=True, outcome=f"{worst:.0e}")
+        # measured on the healthy tree: see the module docstring of the evidence (<= 1e-7 relative)
+        bad = {k: v for k, v in r["dev"].items() if v[0] > 1e-5}
+        if bad:
+            k0 = sorted(bad)[0]
+            chk.violation(dict(desc, output=k0), f"{key}: re-used objects differ from fresh ones at the same parameter values (relative, step): {bad}", replay={"training_loop": list(it)})
+
+
 def interleavings(chk, tier, seed):
     items = []
     for sb in (1, 2):
@@ -822,6 +914,7 @@ def run(chk, tier, seed):
 
     vp.warm()
     interleavings(chk, tier, seed)
+    training_loops(chk, tier, seed)
     setups, rows = lattice(tier, seed)
     for m, mol, b in setups:
         setup(m, mol, b, seed)  # in the parent: forked children inherit the cache
